@@ -574,7 +574,7 @@ def describe_route(c):
                 implementation_panic=c["out"].get("panic"))
 
 
-def run(res):
+def run_routing(res):
     quick = res.tier == "quick"
     tr = vlib.run_translator("routing")
     gen_status = tr["files"].get("Route/gen/RouteGen.v", {})
@@ -799,6 +799,18 @@ def run(res):
             first = ("R|" + json.dumps(routes[bad_routes[0]])) if bad_routes else None
         res.violation(dict(kind="obligation", broken=what, translator=gen_status, smallest_disagreeing_case=first),
                       False, "; ".join(what))
+
+
+def run(res):
+    # 1. the routing functions (binding / exchange packages) against the regenerated model and the AMQP rules
+    run_routing(res)
+    if res.violations or os.environ.get("VERIF_DEV_SKIP_BROKER"):
+        return
+    # 2. the topology around them in the running broker (declare / bind / unbind / delete / restart, then publish and
+    #    get): sessions compared step by step with the broker model - whose matched_queues is the same routing function
+    import brokercheck
+    brokercheck.run(res, "C08", None, lambda se, stats: [], focus="routing", racy=False,
+                    nontrivial=lambda se: any(st["op"].startswith("QB ") for st in se["steps"]))
 
 
 def replay(path):
